@@ -132,8 +132,9 @@ def fc_dict(entries, nfaces, facedim, nm=lambda x: x, order=None, npbool=False):
     for k in idx:
         f, a, sd, nf, na, rev = entries[k]
         tab.setdefault(f, {}).setdefault(nm(a), [None, None])[sd] = (nf, nm(na), flag(rev))
-    for f in faces:
-        tab.setdefault(f, {})
+    if all(e[0] in faces for e in entries):
+        for f in faces:
+            tab.setdefault(f, {})
     return {facedim: {f: {a: tuple(v) for a, v in tab[f].items()} for f in tab}}
 
 
